@@ -65,11 +65,12 @@ fn convert_single_leaf_and_single_question() {
         Ok(t) => assert!(t.state == 2 && t.nodes.len() == 1 && is_leaf(&t.nodes[0], 3)),
         Err(_) => assert!(false),
     }
-    let r2 = convert_tree(PTree { state: 4, nodes: vec![node(0, "q2", TreeIndex::Pdf(2), TreeIndex::Pdf(1))] }, &lut);
+    // PDF ids need not start at 1 nor be contiguous: a leaf's position is its RANK among the tree's PDF ids
+    let r2 = convert_tree(PTree { state: 4, nodes: vec![node(0, "q2", TreeIndex::Pdf(7), TreeIndex::Pdf(3))] }, &lut);
     match &r2 {
         Ok(t) => {
             assert!(t.state == 4 && t.nodes.len() == 3);
-            assert!(is_node(&t.nodes[0], 2, 1) && is_leaf(&t.nodes[1], 1) && is_leaf(&t.nodes[2], 2));
+            assert!(is_node(&t.nodes[0], 2, 1) && is_leaf(&t.nodes[1], 3) && is_leaf(&t.nodes[2], 7));
         }
         Err(_) => assert!(false),
     }
